@@ -11,7 +11,8 @@ checks = sys.argv[3:]
 dst = '/verif/seeded/%s' % pid
 os.makedirs(dst, exist_ok=True)
 for f in ('patch.diff', 'demo.py', 'meta.json'):
-    shutil.copy(os.path.join(src, 'seeded', f), os.path.join(dst, f))
+    if not os.path.exists(os.path.join(dst, f)) or f == 'patch.diff':
+        shutil.copy(os.path.join(src, 'seeded', f), os.path.join(dst, f))
 wt = '/tmp/confirm_%s_%d' % (pid, os.getpid())
 subprocess.check_call(['git', '-C', '/repo', 'worktree', 'add', '-q', '--detach', wt, 'HEAD'])
 meta = json.load(open(os.path.join(dst, 'meta.json')))
